@@ -21,6 +21,7 @@ PALETTE = [
     {"nonorthogonal_xpoint_poloidal_spacing_length": 0.03, "nonorthogonal_target_all_poloidal_spacing_length": 0.4},
     {"nonorthogonal_spacing_method": "perp_orthogonal_combined"},
     {"nonorthogonal_spacing_method": "orthogonal"},
+    {"nonorthogonal_target_inner_lower_poloidal_spacing_length": 0.15, "nonorthogonal_target_outer_upper_poloidal_spacing_range": 0.3, "nonorthogonal_xpoint_poloidal_spacing_range": 0.2},
 ]
 
 
@@ -58,7 +59,7 @@ def plan(tier, seed):
     # changes ONLY the radial power, [0, (0, 3)] only the method
     # [6, 4] ends with the empty settings (back to the defaults) after non-default ones
     H_quick = [[5], [1, (1, 5)], [2, 4, 2], [6, 4]]
-    H_more = [[3, 0, 3, 1], [0, 0], [5, 6, 3], [1, 4], [0, (0, 3)], [6, (6, 5), 6], [3], [7], [8], [7, 4], [3, 7, 3]]
+    H_more = [[3, 0, 3, 1], [0, 0], [5, 6, 3], [1, 4], [0, (0, 3)], [6, (6, 5), 6], [3], [7], [8], [7, 4], [3, 7, 3], [9], [9, 4], [0, 9], [9, 2, 9]]
     # a mesh BUILT with poloidal_orthogonal_combined (single null: the default 'combined' method is
     # refused for this family), taken to other settings of the same method and back
     H_poc = [[(0, 3)], [(5, 3), (6, 3)], [(1, 3), (2, 3), 3], [4], [(6, 3), 3]]
